@@ -268,7 +268,9 @@ class ProcessManager:
                 elif isinstance(action, ShutdownAction):
                     logger.debug("Process manager closed, killing workers.")
                     for worker in self.workers:
-                        if worker.pid:
+                        # Dead workers must not be signalled. Their pid
+                        # may not exist anymore or belong to another process.
+                        if worker.pid and worker.is_alive():
                             os.kill(worker.pid, signal.SIGINT)
                     return None
 
